@@ -286,6 +286,44 @@ pub fn check(_ctx: &Ctx, input: &Input) -> CaseResult {
                 }
             }
         }
+        // default-configuration entry points and the file-writing emitter
+        {
+            let path = std::env::temp_dir().join(format!("walrus-verif-c14d-{}-{:?}.wasm", std::process::id(), std::thread::current().id()));
+            let path2 = path.with_extension("out.wasm");
+            if std::fs::write(&path, &bytes).is_ok() {
+                let a = crate::run::guard("parse", || walrus::Module::from_file(&path).map_err(|e| format!("{:#}", e)))?;
+                let b = crate::run::guard("parse", || walrus::Module::from_buffer(&bytes).map_err(|e| format!("{:#}", e)))?;
+                match (a, b) {
+                    (Ok(mut ma), Ok(mut mb)) => {
+                        if let (Ok(x), Ok(y)) = (wal::emit(&mut ma), wal::emit(&mut mb)) {
+                            if x != y {
+                                return Err(Failure::new("entry-point-changes-output", format!("Module::from_file and Module::from_buffer give different output [{}]", origin)));
+                            }
+                            // same module, written to a file
+                            let w = crate::run::guard("emit", || mb.emit_wasm_file(&path2).map_err(|e| format!("{:#}", e)))?;
+                            match w {
+                                Ok(()) => {
+                                    let z = std::fs::read(&path2).unwrap_or_default();
+                                    if z != y {
+                                        return Err(Failure::new("emit_wasm_file-differs-from-emit_wasm", format!("{} vs {} bytes [{}]", z.len(), y.len(), origin)));
+                                    }
+                                }
+                                Err(e) => return Err(Failure::new("emit_wasm_file-failed", format!("{} [{}]", e, origin))),
+                            }
+                        }
+                    }
+                    (Err(_), Err(_)) => {}
+                    (a, b) => {
+                        return Err(Failure::new(
+                            "entry-point-changes-verdict",
+                            format!("Module::from_file accepted: {}, Module::from_buffer accepted: {} [{}]", a.is_ok(), b.is_ok(), origin),
+                        ))
+                    }
+                }
+            }
+            let _ = std::fs::remove_file(&path);
+            let _ = std::fs::remove_file(&path2);
+        }
         out.label("entry-points:file+buffer");
     }
     if !valid[0] {
@@ -415,6 +453,39 @@ pub fn check(_ctx: &Ctx, input: &Input) -> CaseResult {
                     cur = n;
                 }
                 _ => break,
+            }
+        }
+    }
+    // producers edited through the API: additions are emitted next to the
+    // input's fields and walrus is still recorded once; clear() leaves walrus only
+    {
+        let cfg = cfg_of(3).to_config();
+        if let Ok(Ok(mut m)) = wal::parse(&bytes, &cfg) {
+            m.producers.add_language("verif-lang", "1.0");
+            m.producers.add_sdk("verif-sdk", "2");
+            m.producers.add_processed_by("verif-tool", "3");
+            if let Ok(b) = wal::emit(&mut m) {
+                let op = producers(&b).ok_or_else(|| Failure::new("producers-section-missing-or-malformed", format!("after API additions [{}]", origin)))?;
+                let mut want = in_prod.clone().unwrap_or_default();
+                for (f, n, v) in [("language", "verif-lang", "1.0"), ("sdk", "verif-sdk", "2"), ("processed-by", "verif-tool", "3")] {
+                    want.push((f.to_string(), vec![(n.to_string(), v.to_string())]));
+                }
+                check_producers(&Some(want), &op, 1, &origin).map_err(|f| Failure::new(format!("api-additions:{}", f.signature), f.detail))?;
+                out.label("producers-api:additions");
+            }
+            // clear() is documented to drop all keys and values (walrus's own
+            // entry included): nothing of the input may survive it
+            m.producers.clear();
+            if let Ok(b) = wal::emit(&mut m) {
+                if let Some(op) = producers(&b) {
+                    let entries: Vec<(String, String)> = op.iter().flat_map(|(f, v)| v.iter().map(move |(n, _)| (f.clone(), n.clone()))).collect();
+                    if entries.iter().any(|e| *e != ("processed-by".to_string(), "walrus".to_string())) {
+                        return Err(Failure::new(
+                            "producers-clear-leaves-entries",
+                            format!("after ModuleProducers::clear() the output producers section is {:?} [{}]", op, origin),
+                        ));
+                    }
+                }
             }
         }
     }
